@@ -337,6 +337,36 @@ impl<'tcx> Dumper<'tcx> {
                         }
                     }
                 }
+            } else if matches!(inner.kind(), ty::Ref(_, i2, _) if i2.is_str()) {
+                // `&&str` (a promoted `&"literal"`, as produced by `x == "literal"` on a &String): follow the fat pointer
+                if let Ok(ConstValue::Scalar(mir::interpret::Scalar::Ptr(ptr, _))) = c.const_.eval(tcx, tenv, rustc_span::DUMMY_SP) {
+                    let (prov, off) = ptr.into_raw_parts();
+                    if let Some(mir::interpret::GlobalAlloc::Memory(m)) = tcx.try_get_global_alloc(prov.alloc_id()) {
+                        let a = m.inner();
+                        let start = off.bytes() as usize;
+                        let ps = tcx.data_layout.pointer_size().bytes() as usize;
+                        if start + 2 * ps <= a.len() {
+                            let raw = a.inspect_with_uninit_and_ptr_outside_interpreter(start..start + 2 * ps);
+                            let mut toff: usize = 0;
+                            let mut tlen: usize = 0;
+                            for i in 0..ps {
+                                toff |= (raw[i] as usize) << (8 * i);
+                                tlen |= (raw[ps + i] as usize) << (8 * i);
+                            }
+                            for (o, p2) in a.provenance().ptrs().iter() {
+                                if o.bytes() as usize == start {
+                                    if let Some(mir::interpret::GlobalAlloc::Memory(m2)) = tcx.try_get_global_alloc(p2.alloc_id()) {
+                                        let a2 = m2.inner();
+                                        if toff + tlen <= a2.len() && tlen <= 4096 {
+                                            let bytes = a2.inspect_with_uninit_and_ptr_outside_interpreter(toff..toff + tlen);
+                                            items.push(("s", js(&String::from_utf8_lossy(bytes))));
+                                        }
+                                    }
+                                }
+                            }
+                        }
+                    }
+                }
             } else if inner.is_integral() || inner.is_bool() {
                 // reference to a scalar (promoted `&0u8` etc.): the pointee's value
                 if let Ok(ConstValue::Scalar(mir::interpret::Scalar::Ptr(ptr, _))) = c.const_.eval(tcx, tenv, rustc_span::DUMMY_SP) {
